@@ -1287,4 +1287,1034 @@ theorem itemsOk_ge (divs : Nat) (items : List Item) (cur e : Nat) (h : itemsOk d
           have := ih c1 h
           omega
 
+def stavesOf (nstaves : Nat) : List Nat := (List.range nstaves).map (· + 1)
+
+theorem mem_stavesOf (nstaves s : Nat) : s ∈ stavesOf nstaves ↔ 1 ≤ s ∧ s ≤ nstaves := by
+  simp only [stavesOf, List.mem_map, List.mem_range]
+  constructor
+  · rintro ⟨a, ha, rfl⟩; omega
+  · rintro ⟨h1, h2⟩; exact ⟨s - 1, by omega, by omega⟩
+
+/-- one measure: the state machine goes from the start of the measure to its end, and every written note of the
+    measure is read at its place -/
+theorem measure_spec (divs nstaves : Nat) (ks : List String) (m : MMeasure) (layers : List (Nat × Nat × List Item))
+    (hfin : finalLayers nstaves m = some layers) (ends : List Nat)
+    (hends : mapMOpt (fun l => itemsOk divs m.start l.2.2) layers = some ends)
+    (hle : ∀ e ∈ ends, e ≤ m.end_) (hfill : m.end_ ∈ ends) (hlst : ∀ l ∈ layers, 1 ≤ l.1 ∧ l.1 ≤ nstaves) (hns : 0 < nstaves)
+    (evs : List Ev) (hev : measureEvs ks nstaves m = some evs)
+    (st : Mei.St) (hc : SecCtx st nstaves) (hpos : st.pos = (m.start : Rat) / (divs : Rat)) :
+    ∃ st' new, runEvs st evs = some st' ∧ st'.notes = new ++ st.notes ∧ st'.stack = st.stack ∧
+      st'.pos = (m.end_ : Rat) / (divs : Rat) ∧ SecCtx st' nstaves ∧
+      st'.sdMeter = st.sdMeter ∧ st'.sdMeterChild = st.sdMeterChild ∧ st'.defs = st.defs ∧
+      (∀ r ∈ new, r.part < nstaves) ∧
+      ∀ l ∈ layers, ∀ x ∈ l.2.2.flatMap itemNotes, x.n.kind ≠ 2 → ∃ r ∈ new, rfact r = factOf divs x := by
+  simp only [measureEvs, hfin, Option.map_eq_some_iff] at hev
+  obtain ⟨es, hes, rfl⟩ := hev
+  let A : List (String × String) := [("n", intStr m.number)]
+  have hp : pre st "measure" A = some st :=
+    pre_noDur st "measure" A (by simp [A, attr, lookup]) (by simp [A, natAttr, attr, lookup]) (by decide)
+  obtain ⟨M, hM⟩ := ensureStarted_ok st hc.meters
+  have hopen := openEv_measure st A M hp hM
+  let stM : Mei.St := { st with meters := M, started := true, measName := attr A "n", staffIdx := 0, staffEnds := [],
+                                 stack := { tag := "measure", attrs := A } :: st.stack }
+  have hcM : MeasCtx stM := by
+    refine ⟨by simp [parentTag, stM], ?_, ?_, hc.ch⟩
+    · have := hc.noLayer
+      simp only [inLayer, stM, List.any_cons] at this ⊢
+      simp [this]
+    · show tupletsOf ({ tag := "measure", attrs := A } :: st.stack) = _
+      rw [tupletsOf_push_other _ _ (by simp), hc.noTup]
+  let E : Rat := (m.end_ : Rat) / (divs : Rat)
+  have hEle : ∀ e ∈ ends, q divs e ≤ E := by
+    intro e he
+    have := hle e he
+    simp only [q, E]
+    exact div_le_div_of_nonneg_right (by exact_mod_cast this) (by positivity)
+  -- the measure is not empty in time: the layer that fills it starts at its start
+  have hse : m.start ≤ m.end_ := by
+    obtain ⟨l, _, hl⟩ := (mapMOpt_mem _ _ _ hends).2 m.end_ hfill
+    exact itemsOk_ge divs l.2.2 m.start m.end_ hl
+  have hposE : stM.pos ≤ E := by
+    show st.pos ≤ E
+    rw [hpos]
+    exact div_le_div_of_nonneg_right (by exact_mod_cast hse) (by positivity)
+  obtain ⟨de, new, c, v, sn, li, le, ms, se, r1, p1, f1, b1, len1, g1⟩ :=
+    staves_spec divs ks layers m.start E ends hends hEle (stavesOf nstaves) es hes stM hcM hpos hposE
+  -- the end of the measure
+  have hlenS : (stavesOf nstaves).length = nstaves := by simp [stavesOf]
+  have hpos' : ratMaxFrom st.pos (se ++ []) = E := by
+    rw [List.append_nil]
+    apply le_antisymm
+    · exact ratMaxFrom_le _ _ _ hposE b1
+    · obtain ⟨l, hl, hfl⟩ := (mapMOpt_mem _ _ _ hends).2 m.end_ hfill
+      obtain ⟨x, hx, hxe⟩ := g1 l hl ((mem_stavesOf nstaves l.1).mpr (hlst l hl)) m.end_ hfl
+      exact le_trans hxe (ratMaxFrom_ge_mem _ _ _ hx)
+  let stF : Mei.St := { st with notes := new ++ st.notes, cursor := c, voice := v, staffN := sn, layerIdx := li, layerEnds := le,
+                                 measures := ms, staffEnds := se ++ [], staffIdx := 0 + (stavesOf nstaves).length, durEls := de,
+                                 meters := M, started := true, measName := attr A "n", pos := E, measNo := st.measNo + 1 }
+  refine ⟨stF, new, ?_, rfl, rfl, rfl, ⟨hc.noLayer, hc.noTup, hc.ch, hc.defs, hc.meters, hc.inSec⟩, rfl, rfl, rfl, ?_, ?_⟩
+  · simp only [el, List.cons_append, runEvs, stepEv]
+    rw [show openEv st "measure" [("n", intStr m.number)] = _ from hopen]
+    simp only []
+    rw [runEvs_append, r1]
+    simp only [Option.bind_some, runEvs, stepEv]
+    rw [closeEv_measure _ { tag := "measure", attrs := A } st.stack rfl rfl (by simp [stM, hlenS, hc.defs])]
+    simp only [stM, stF, Option.some.injEq]
+    rw [← hpos']
+  · intro r hr
+    have := (p1 r hr).2
+    simpa [stM, hlenS] using this
+  · intro l hl x hx hk
+    exact f1 l hl ((mem_stavesOf nstaves l.1).mpr (hlst l hl)) x hx hk
+
+/-! ## every note of a measure is written -/
+
+theorem mem_insertNat (a x : Nat) (l : List Nat) : x ∈ insertNat a l ↔ x = a ∨ x ∈ l := by
+  induction l with
+  | nil => simp [insertNat]
+  | cons b rest ih =>
+    simp only [insertNat]
+    split
+    · rename_i hab; subst hab; simp only [List.mem_cons]; tauto
+    · split
+      · simp only [List.mem_cons]
+      · simp only [List.mem_cons, ih]; tauto
+
+theorem mem_sortedUnique_aux (l acc : List Nat) (x : Nat) :
+    x ∈ l.foldl (fun acc a => insertNat a acc) acc ↔ x ∈ acc ∨ x ∈ l := by
+  induction l generalizing acc with
+  | nil => simp
+  | cons a rest ih =>
+    simp only [List.foldl_cons, ih, mem_insertNat, List.mem_cons]
+    tauto
+
+theorem mem_sortedUnique (l : List Nat) (x : Nat) : x ∈ sortedUnique l ↔ x ∈ l := by
+  simp [sortedUnique, mem_sortedUnique_aux]
+
+theorem foldl_best_mem (cands : List Nat) (f : Nat → Nat → Nat) (hf : ∀ b s, f b s = b ∨ f b s = s) (init : Nat) :
+    cands.foldl f init = init ∨ cands.foldl f init ∈ cands := by
+  induction cands generalizing init with
+  | nil => exact Or.inl rfl
+  | cons c rest ih =>
+    simp only [List.foldl_cons]
+    rcases ih (f init c) with h | h
+    · rcases hf init c with h' | h'
+      · left; rw [h, h']
+      · right; rw [h, h']; simp
+    · right; exact List.mem_cons_of_mem _ h
+
+/-- the staff in which a voice is written is a staff on which the voice has a note -/
+theorem majorityStaff_mem (notes : List MNote) (x : MNote) (hx : x ∈ notes) :
+    ∃ y ∈ notes, y.n.voice = x.n.voice ∧ y.n.staff = majorityStaff notes x.n.voice := by
+  have hne : x.n.staff ∈ ((notes.filter fun m => m.n.voice = x.n.voice).map (·.n.staff)) :=
+    List.mem_map.mpr ⟨x, List.mem_filter.mpr ⟨hx, by simp⟩, rfl⟩
+  have hmem : majorityStaff notes x.n.voice ∈ ((notes.filter fun m => m.n.voice = x.n.voice).map (·.n.staff)) := by
+    simp only [majorityStaff]
+    cases hc : sortedUnique ((notes.filter fun m => m.n.voice = x.n.voice).map (·.n.staff)) with
+    | nil =>
+      have := (mem_sortedUnique _ _).mpr hne
+      rw [hc] at this
+      cases this
+    | cons c0 rest =>
+      have hsub : ∀ z ∈ c0 :: rest, z ∈ ((notes.filter fun m => m.n.voice = x.n.voice).map (·.n.staff)) := by
+        intro z hz
+        rw [← hc] at hz
+        exact (mem_sortedUnique _ _).mp hz
+      simp only [List.headD_cons]
+      rcases foldl_best_mem (c0 :: rest)
+        (fun best s =>
+          if ((((notes.filter fun m => m.n.voice = x.n.voice).map (·.n.staff)).filter (· = s)).length >
+              (((notes.filter fun m => m.n.voice = x.n.voice).map (·.n.staff)).filter (· = best)).length) then s else best)
+        (by intro b s; split <;> simp) c0 with h | h
+      · rw [h]; exact hsub c0 (by simp)
+      · exact hsub _ h
+  obtain ⟨y, hy, hys⟩ := List.mem_map.mp hmem
+  have := List.mem_filter.mp hy
+  exact ⟨y, this.1, by simpa using this.2, hys⟩
+
+theorem mem_onsetLeaves (group : List MNote) (x : MNote) (hx : x ∈ group) :
+    x ∈ (onsetLeaves group).flatMap leafNotes := by
+  simp only [onsetLeaves, List.flatMap_append, List.mem_append]
+  by_cases hk : x.n.kind = 1
+  · left
+    simp only [List.mem_flatMap, List.mem_map]
+    exact ⟨Leaf.single x, ⟨x, List.mem_filter.mpr ⟨hx, by simp [hk]⟩, rfl⟩, by simp [leafNotes]⟩
+  · right
+    have hp : x ∈ group.filter fun m => m.n.kind ≠ 1 := List.mem_filter.mpr ⟨hx, by simp [hk]⟩
+    cases hpl : group.filter fun m => m.n.kind ≠ 1 with
+    | nil => rw [hpl] at hp; cases hp
+    | cons a rest =>
+      rw [hpl] at hp
+      cases rest with
+      | nil => simp at hp; subst hp; simp [leafNotes]
+      | cons b rest' => simp [leafNotes]; simpa using hp
+
+theorem mem_layerItems (notes : List MNote) (x : MNote) (hx : x ∈ notes) :
+    x ∈ (layerItems notes x.n.voice).flatMap itemNotes := by
+  simp only [layerItems, List.flatMap_map]
+  have hvn : x ∈ notes.filter fun m => m.n.voice = x.n.voice := List.mem_filter.mpr ⟨hx, by simp⟩
+  have ht : x.start ∈ sortedUnique ((notes.filter fun m => m.n.voice = x.n.voice).map (·.start)) :=
+    (mem_sortedUnique _ _).mpr (List.mem_map.mpr ⟨x, hvn, rfl⟩)
+  have hg := mem_onsetLeaves ((notes.filter fun m => m.n.voice = x.n.voice).filter fun m => m.start = x.start) x
+    (List.mem_filter.mpr ⟨hvn, by simp⟩)
+  simp only [List.mem_flatMap] at hg ⊢
+  obtain ⟨l, hl, hxl⟩ := hg
+  exact ⟨l, ⟨x.start, ht, hl⟩, by simpa [itemNotes] using hxl⟩
+
+/-- the layers before the tuplets are wrapped: every note of the measure is in the layer of its voice, which is
+    written on one of the staves -/
+theorem measureLayers_cover (nstaves : Nat) (m : MMeasure) (hst : ∀ x ∈ m.notes, 1 ≤ x.n.staff ∧ x.n.staff ≤ nstaves)
+    (x : MNote) (hx : x ∈ m.notes) :
+    ∃ l ∈ measureLayers nstaves m, x ∈ l.2.2.flatMap itemNotes := by
+  obtain ⟨y, hy, hyv, hys⟩ := majorityStaff_mem m.notes x hx
+  refine ⟨(majorityStaff m.notes x.n.voice, x.n.voice, layerItems m.notes x.n.voice), ?_, mem_layerItems m.notes x hx⟩
+  simp only [measureLayers, List.mem_map]
+  refine ⟨(majorityStaff m.notes x.n.voice, x.n.voice), ?_, by simp⟩
+  simp only [List.mem_flatMap]
+  refine ⟨majorityStaff m.notes x.n.voice, ?_, ?_⟩
+  · rw [← hys]
+    have := hst y hy
+    simp only [List.mem_map, List.mem_range]
+    exact ⟨y.n.staff - 1, by omega, by omega⟩
+  · have hin : (sortedUnique (m.notes.map (·.n.staff))).contains (majorityStaff m.notes x.n.voice) = true := by
+      rw [List.contains_eq_mem]
+      simp only [decide_eq_true_eq]
+      rw [mem_sortedUnique, ← hys]
+      exact List.mem_map.mpr ⟨y, hy, rfl⟩
+    simp only [hin, if_true, List.mem_map]
+    refine ⟨x.n.voice, ?_, rfl⟩
+    rw [mem_sortedUnique]
+    exact List.mem_map.mpr ⟨y, List.mem_filter.mpr ⟨hy, by simp [hys]⟩, hyv⟩
+
+theorem measureLayers_staff (nstaves : Nat) (m : MMeasure) :
+    ∀ l ∈ measureLayers nstaves m, 1 ≤ l.1 ∧ l.1 ≤ nstaves := by
+  intro l hl
+  simp only [measureLayers, List.mem_map, List.mem_flatMap, List.mem_range] at hl
+  obtain ⟨sv, ⟨s, ⟨a, ha, rfl⟩, hsv⟩, rfl⟩ := hl
+  split at hsv
+  · simp only [List.mem_map] at hsv
+    obtain ⟨v, _, rfl⟩ := hsv
+    split <;> (simp only; omega)
+  · cases hsv
+
+theorem leavesOf_notes (items : List Item) (inner : List Leaf) (h : leavesOf items = some inner) :
+    items.flatMap itemNotes = inner.flatMap leafNotes := by
+  induction items generalizing inner with
+  | nil => simp [leavesOf] at h; subst h; rfl
+  | cons it rest ih =>
+    cases it with
+    | leaf l =>
+      simp only [leavesOf, Option.map_eq_some_iff] at h
+      obtain ⟨r, hr, rfl⟩ := h
+      simp [itemNotes, ih r hr]
+    | tuplet _ _ _ => simp [leavesOf] at h
+
+theorem wrapItems_notes (items : List Item) (i j num nb : Nat) (hij : i ≤ j) (w : List Item)
+    (h : wrapItems items i j num nb = some w) : w.flatMap itemNotes = items.flatMap itemNotes := by
+  simp only [wrapItems, Option.map_eq_some_iff] at h
+  obtain ⟨inner, hin, rfl⟩ := h
+  have hsl := leavesOf_notes _ inner hin
+  have hsplit : items = items.take i ++ ((items.drop i).take (j + 1 - i) ++ items.drop (j + 1)) := by
+    have h1 : items.drop (j + 1) = (items.drop i).drop (j + 1 - i) := by
+      rw [List.drop_drop]; congr 1; omega
+    rw [h1, List.take_append_drop, List.take_append_drop]
+  conv_rhs => rw [hsplit]
+  simp only [List.flatMap_append, List.flatMap_cons, List.flatMap_nil, List.append_nil, itemNotes, hsl, List.append_assoc]
+
+/-- wrapping the tuplets moves no note to another layer and loses none -/
+theorem applyTuplet_cover (start end_ : Nat) (layers layers' : List (Nat × Nat × List Item)) (t : MTuplet)
+    (h : applyTuplet start end_ layers t = some layers') :
+    (∀ l' ∈ layers', ∃ l ∈ layers, l'.1 = l.1) ∧
+    (∀ l ∈ layers, ∃ l' ∈ layers', l'.2.2.flatMap itemNotes = l.2.2.flatMap itemNotes) := by
+  have hid : (∀ l' ∈ layers, ∃ l ∈ layers, l'.1 = l.1) ∧
+      (∀ l ∈ layers, ∃ l' ∈ layers, l'.2.2.flatMap itemNotes = l.2.2.flatMap itemNotes) :=
+    ⟨fun l hl => ⟨l, hl, rfl⟩, fun l hl => ⟨l, hl, rfl⟩⟩
+  simp only [applyTuplet] at h
+  split at h
+  · simp at h; subst h; exact hid
+  · split at h
+    · simp at h; subst h; exact hid
+    · split at h
+      · simp at h; subst h; exact hid
+      · split at h
+        · simp at h
+        · rename_i num numbase _
+          split at h
+          · simp at h
+          · rename_i l0 hfind
+            split at h
+            · rename_i i j hi hj
+              split at h
+              · rename_i hij
+                simp only [Option.map_eq_some_iff] at h
+                obtain ⟨w, hw, rfl⟩ := h
+                have hl0 : l0 ∈ layers := List.mem_of_find?_eq_some hfind
+                have hnotes := wrapItems_notes l0.2.2 i j num numbase hij w hw
+                constructor
+                · intro l' hl'
+                  simp only [List.mem_map] at hl'
+                  obtain ⟨a, ha, rfl⟩ := hl'
+                  split
+                  · exact ⟨l0, hl0, rfl⟩
+                  · exact ⟨a, ha, rfl⟩
+                · intro l hl
+                  by_cases he : l = l0
+                  · exact ⟨(l0.1, l0.2.1, w), List.mem_map.mpr ⟨l, hl, by simp [he]⟩, by simp [he, hnotes]⟩
+                  · exact ⟨l, List.mem_map.mpr ⟨l, hl, by simp [he]⟩, rfl⟩
+              · simp at h
+            · simp at h
+
+theorem applyTuplets_cover (start end_ : Nat) (layers layers' : List (Nat × Nat × List Item)) (ts : List MTuplet)
+    (h : applyTuplets start end_ layers ts = some layers') :
+    (∀ l' ∈ layers', ∃ l ∈ layers, l'.1 = l.1) ∧
+    (∀ l ∈ layers, ∃ l' ∈ layers', l'.2.2.flatMap itemNotes = l.2.2.flatMap itemNotes) := by
+  induction ts generalizing layers with
+  | nil => simp [applyTuplets] at h; subst h; exact ⟨fun l hl => ⟨l, hl, rfl⟩, fun l hl => ⟨l, hl, rfl⟩⟩
+  | cons t rest ih =>
+    simp only [applyTuplets] at h
+    cases h1 : applyTuplet start end_ layers t with
+    | none => simp [h1] at h
+    | some l1 =>
+      simp only [h1] at h
+      obtain ⟨a1, a2⟩ := applyTuplet_cover start end_ layers l1 t h1
+      obtain ⟨b1, b2⟩ := ih l1 h
+      constructor
+      · intro l' hl'
+        obtain ⟨l, hl, e⟩ := b1 l' hl'
+        obtain ⟨l0, hl0, e0⟩ := a1 l hl
+        exact ⟨l0, hl0, e.trans e0⟩
+      · intro l hl
+        obtain ⟨l1', hl1', e1⟩ := a2 l hl
+        obtain ⟨l2', hl2', e2⟩ := b2 l1' hl1'
+        exact ⟨l2', hl2', e2.trans e1⟩
+
+/-- every note of the measure is in one of the written layers, all of which are on the written staves -/
+theorem finalLayers_cover (nstaves : Nat) (m : MMeasure) (layers : List (Nat × Nat × List Item))
+    (h : finalLayers nstaves m = some layers) (hst : ∀ x ∈ m.notes, 1 ≤ x.n.staff ∧ x.n.staff ≤ nstaves) :
+    (∀ l ∈ layers, 1 ≤ l.1 ∧ l.1 ≤ nstaves) ∧ ∀ x ∈ m.notes, ∃ l ∈ layers, x ∈ l.2.2.flatMap itemNotes := by
+  simp only [finalLayers] at h
+  split at h
+  · simp at h
+  · obtain ⟨a1, a2⟩ := applyTuplets_cover m.start m.end_ _ layers m.tuplets h
+    constructor
+    · intro l hl
+      obtain ⟨l0, hl0, e⟩ := a1 l hl
+      rw [e]; exact measureLayers_staff nstaves m l0 hl0
+    · intro x hx
+      obtain ⟨l0, hl0, hx0⟩ := measureLayers_cover nstaves m hst x hx
+      obtain ⟨l', hl', e⟩ := a2 l0 hl0
+      exact ⟨l', hl', by rw [e]; exact hx0⟩
+
+/-! ## the measures of the section -/
+
+theorem openEv_scoreDef_sec (st : Mei.St) (as : List (String × String))
+    (hpre : pre st "scoreDef" as = some st) (hin : st.inSection = true) :
+    openEv st "scoreDef" as = some { st with stack := { tag := "scoreDef", attrs := as } :: st.stack } := by
+  simp only [pre] at hpre
+  simp [openEv, hpre, hin]
+
+theorem closeEv_scoreDef_sec (st : Mei.St) (as : List (String × String)) (rest : List Frame)
+    (hs : st.stack = { tag := "scoreDef", attrs := as } :: rest) (hin : st.inSection = true) (stE : Mei.St)
+    (hes : ensureStarted { st with stack := rest, inSection := true } = some stE)
+    (h1 : meterOfAttrs as "meter.count" "meter.unit" = none) (h2 : keyOfAttrs as "key.sig" "key.mode" = none) :
+    closeEv st = some stE := by
+  simp [closeEv, hs, hin, hes, applySdChange, h1, h2]
+
+theorem inSection_eta (st : Mei.St) (h : st.inSection = true) : ({ st with inSection := true } : Mei.St) = st := by
+  cases st
+  simp_all
+
+/-- a `scoreDef` written for a key or meter change (with partitura's own attribute names): no effect on what is read -/
+theorem sdChange_spec (nstaves : Nat) (as : List (String × String))
+    (h0 : attr as "dur" = none) (h0' : natAttr as "meter.unit" = none)
+    (h1 : meterOfAttrs as "meter.count" "meter.unit" = none) (h2 : keyOfAttrs as "key.sig" "key.mode" = none)
+    (st : Mei.St) (hc : SecCtx st nstaves) :
+    ∃ M, runEvs st (el "scoreDef" as []) = some { st with meters := M, started := true } := by
+  have hp : pre st "scoreDef" as = some st := pre_noDur st "scoreDef" as h0 h0' (by decide)
+  obtain ⟨M, hM⟩ := ensureStarted_ok st hc.meters
+  refine ⟨M, ?_⟩
+  simp only [el, List.nil_append, List.cons_append, runEvs, stepEv, openEv_scoreDef_sec st as hp hc.inSec]
+  rw [closeEv_scoreDef_sec { st with stack := { tag := "scoreDef", attrs := as } :: st.stack } as st.stack rfl hc.inSec
+    { st with meters := M, started := true } ?_ h1 h2]
+  show ensureStarted ({ ({ st with inSection := true } : Mei.St) with stack := st.stack }) = _
+  rw [inSection_eta st hc.inSec]
+  exact hM
+
+theorem SecCtx_started (st : Mei.St) (nstaves : Nat) (M : List (Nat × Nat)) (hc : SecCtx st nstaves) :
+    SecCtx { st with meters := M, started := true } nstaves :=
+  ⟨hc.noLayer, hc.noTup, hc.ch, hc.defs, hc.meters, hc.inSec⟩
+
+/-- what stays the same between two measures, whatever else happens -/
+structure Stable (st st' : Mei.St) : Prop where
+  stack : st'.stack = st.stack
+  sdMeter : st'.sdMeter = st.sdMeter
+  sdMeterChild : st'.sdMeterChild = st.sdMeterChild
+  defs : st'.defs = st.defs
+
+theorem sdChanges_spec (nstaves : Nat) (ass : List (List (String × String)))
+    (h : ∀ as ∈ ass, attr as "dur" = none ∧ natAttr as "meter.unit" = none ∧
+      meterOfAttrs as "meter.count" "meter.unit" = none ∧ keyOfAttrs as "key.sig" "key.mode" = none)
+    (st : Mei.St) (hc : SecCtx st nstaves) :
+    ∃ st', runEvs st (ass.map fun as => el "scoreDef" as []).flatten = some st' ∧ SecCtx st' nstaves ∧ Stable st st' ∧
+      st'.pos = st.pos ∧ st'.notes = st.notes := by
+  induction ass generalizing st with
+  | nil => exact ⟨st, by simp [runEvs], hc, ⟨rfl, rfl, rfl, rfl⟩, rfl, rfl⟩
+  | cons as rest ih =>
+    obtain ⟨h0, h0', h1, h2⟩ := h as (by simp)
+    obtain ⟨M, hM⟩ := sdChange_spec nstaves as h0 h0' h1 h2 st hc
+    obtain ⟨st', r, c, s, p, n⟩ := ih (fun x hx => h x (by simp [hx])) _ (SecCtx_started st nstaves M hc)
+    refine ⟨st', ?_, c, ⟨s.stack, s.sdMeter, s.sdMeterChild, s.defs⟩, p, n⟩
+    simp only [List.map_cons, List.flatten_cons]
+    rw [runEvs_append, hM]
+    exact r
+
+theorem keyChange_attrs (k : KeySig) :
+    attr [("mode", k.mode.getD "major"), ("sig", sigStr k.fifths), ("pname", k.pname)] "dur" = none ∧
+    natAttr [("mode", k.mode.getD "major"), ("sig", sigStr k.fifths), ("pname", k.pname)] "meter.unit" = none ∧
+    meterOfAttrs [("mode", k.mode.getD "major"), ("sig", sigStr k.fifths), ("pname", k.pname)] "meter.count" "meter.unit" = none ∧
+    keyOfAttrs [("mode", k.mode.getD "major"), ("sig", sigStr k.fifths), ("pname", k.pname)] "key.sig" "key.mode" = none := by
+  simp [attr, natAttr, meterOfAttrs, keyOfAttrs, lookup]
+
+theorem meterChange_attrs (b u : Nat) :
+    attr [("count", natStr b), ("unit", natStr u)] "dur" = none ∧
+    natAttr [("count", natStr b), ("unit", natStr u)] "meter.unit" = none ∧
+    meterOfAttrs [("count", natStr b), ("unit", natStr u)] "meter.count" "meter.unit" = none ∧
+    keyOfAttrs [("count", natStr b), ("unit", natStr u)] "key.sig" "key.mode" = none := by
+  simp [attr, natAttr, meterOfAttrs, keyOfAttrs, lookup]
+
+theorem measures_spec (divs nstaves : Nat) (hns : 0 < nstaves) (ms : List MMeasure) (ks : List String) (t : Nat)
+    (hchain : measuresChain t ms = true) (hok : ∀ m ∈ ms, measureOk divs nstaves m = true)
+    (evs : List Ev) (hev : measuresEvs nstaves ks ms = some evs)
+    (st : Mei.St) (hc : SecCtx st nstaves) (hpos : st.pos = (t : Rat) / (divs : Rat)) :
+    ∃ st' new, runEvs st evs = some st' ∧ st'.notes = new ++ st.notes ∧ Stable st st' ∧ SecCtx st' nstaves ∧
+      (∀ r ∈ new, r.part < nstaves) ∧
+      ∀ m ∈ ms, ∀ x ∈ m.notes, x.n.kind ≠ 2 → ∃ r ∈ new, rfact r = factOf divs x := by
+  induction ms generalizing ks t evs st with
+  | nil =>
+    simp [measuresEvs] at hev
+    subst hev
+    exact ⟨st, [], by simp [runEvs], by simp, ⟨rfl, rfl, rfl, rfl⟩, hc, by simp, by simp⟩
+  | cons m rest ih =>
+    simp only [measuresChain, Bool.and_eq_true, decide_eq_true_eq] at hchain
+    obtain ⟨hstart, hchain'⟩ := hchain
+    simp only [measuresEvs] at hev
+    split at hev
+    case h_2 => simp at hev
+    case h_1 me more hme hmore =>
+        simp only [Option.some.injEq] at hev
+        subst hev
+        -- the changes of key and meter written before the measure
+        obtain ⟨st1, r1, c1, s1, p1, n1⟩ := sdChanges_spec nstaves
+          ((m.keys.filter fun k => k.t ≠ 0).map fun k => [("mode", k.mode.getD "major"), ("sig", sigStr k.fifths), ("pname", k.pname)])
+          (by intro as has; obtain ⟨k, _, rfl⟩ := List.mem_map.mp has; exact keyChange_attrs k) st hc
+        obtain ⟨st2, r2, c2, s2, p2, n2⟩ := sdChanges_spec nstaves
+          ((m.meters.filter fun x => x.1 ≠ 0).map fun x => [("count", natStr x.2.1), ("unit", natStr x.2.2)])
+          (by intro as has; obtain ⟨x, _, rfl⟩ := List.mem_map.mp has; exact meterChange_attrs x.2.1 x.2.2) st1 c1
+        -- the measure
+        have hmok := hok m (by simp)
+        simp only [measureOk] at hmok
+        cases hfin : finalLayers nstaves m with
+        | none => simp [hfin] at hmok
+        | some layers =>
+          simp only [hfin] at hmok
+          cases hends : mapMOpt (fun l => itemsOk divs m.start l.2.2) layers with
+          | none => simp [hends] at hmok
+          | some ends =>
+            simp only [hends, Bool.and_eq_true, List.all_eq_true, decide_eq_true_eq, List.contains_eq_mem] at hmok
+            obtain ⟨⟨hle, hfill⟩, hnotes⟩ := hmok
+            have hst : ∀ x ∈ m.notes, 1 ≤ x.n.staff ∧ x.n.staff ≤ nstaves := by
+              intro x hx
+              have := hnotes x hx
+              exact ⟨this.1.1.1, this.1.1.2⟩
+            obtain ⟨hlst, hcover⟩ := finalLayers_cover nstaves m layers hfin hst
+            have hpos2 : st2.pos = (m.start : Rat) / (divs : Rat) := by rw [p2, p1, hpos, hstart]
+            obtain ⟨st3, new3, r3, n3, k3, p3, c3, e1, e2, e3, b3, f3⟩ := measure_spec divs nstaves ks m layers hfin ends hends
+              hle hfill hlst hns me hme st2 c2 hpos2
+            obtain ⟨st4, new4, r4, n4, s4, c4, b4, f4⟩ := ih _ m.end_ hchain' (fun x hx => hok x (by simp [hx])) more hmore st3 c3 p3
+            refine ⟨st4, new4 ++ new3, ?_, by rw [n4, n3, n2, n1]; simp, ?_, c4, ?_, ?_⟩
+            · rw [runEvs_append, runEvs_append, runEvs_append]
+              have e1' : ((m.keys.filter fun k => k.t ≠ 0).map keyChangeEvs) =
+                  (((m.keys.filter fun k => k.t ≠ 0).map fun k =>
+                    [("mode", k.mode.getD "major"), ("sig", sigStr k.fifths), ("pname", k.pname)]).map fun as => el "scoreDef" as []) := by
+                rw [List.map_map]; rfl
+              have e2' : ((m.meters.filter fun x => x.1 ≠ 0).map fun x => meterChangeEvs x.2.1 x.2.2) =
+                  (((m.meters.filter fun x => x.1 ≠ 0).map fun x => [("count", natStr x.2.1), ("unit", natStr x.2.2)]).map
+                    fun as => el "scoreDef" as []) := by
+                rw [List.map_map]; rfl
+              rw [e1', e2', r1]
+              simp only [Option.bind_some]
+              rw [r2]
+              simp only [Option.bind_some]
+              rw [r3]
+              simp only [Option.bind_some]
+              exact r4
+            · exact ⟨by rw [s4.stack, k3, s2.stack, s1.stack], by rw [s4.sdMeter, e1, s2.sdMeter, s1.sdMeter],
+                by rw [s4.sdMeterChild, e2, s2.sdMeterChild, s1.sdMeterChild], by rw [s4.defs, e3, s2.defs, s1.defs]⟩
+            · intro r hr
+              rcases List.mem_append.mp hr with h | h
+              · exact b4 r h
+              · exact b3 r h
+            · intro x hx y hy hk
+              rcases List.mem_cons.mp hx with rfl | hx
+              · obtain ⟨l, hl, hyl⟩ := hcover y hy
+                obtain ⟨r, hr, hf⟩ := f3 l hl y hyl hk
+                exact ⟨r, by simp [hr], hf⟩
+              · obtain ⟨r, hr, hf⟩ := f4 x hx y hy hk
+                exact ⟨r, by simp [hr], hf⟩
+
+/-! ## the header -/
+
+def push (st : Mei.St) (tag : String) (as : List (String × String)) : Mei.St :=
+  { st with stack := { tag := tag, attrs := as } :: st.stack }
+
+theorem openEv_plain (st : Mei.St) (tag : String) (as : List (String × String))
+    (hpre : pre st tag as = some st) (hnl : inLayer st.stack = false)
+    (htag : tag ∈ ["mei", "meiHead", "fileDesc", "titleStmt", "title", "music", "body", "mdiv", "score", "staffGrp", "staffDef"]) :
+    openEv st tag as = some (push st tag as) := by
+  simp only [pre] at hpre
+  simp only [List.mem_cons, List.not_mem_nil, or_false] at htag
+  rcases htag with rfl | rfl | rfl | rfl | rfl | rfl | rfl | rfl | rfl | rfl | rfl <;>
+    simp [openEv, hpre, hnl, push]
+
+theorem openEv_scoreDef_head (st : Mei.St) (as : List (String × String))
+    (hpre : pre st "scoreDef" as = some st) (hin : st.inSection = false) :
+    openEv st "scoreDef" as =
+      some (push { st with sdMeter := meterOfAttrs as "meter.count" "meter.unit", sdKey := keyOfAttrs as "key.sig" "key.mode" }
+        "scoreDef" as) := by
+  simp only [pre] at hpre
+  simp [openEv, hpre, hin, push]
+
+theorem openEv_section (st : Mei.St) (as : List (String × String)) (hpre : pre st "section" as = some st) :
+    openEv st "section" as = some (push { st with inSection := true } "section" as) := by
+  simp only [pre] at hpre
+  simp [openEv, hpre, push]
+
+theorem openEv_clef_def (st : Mei.St) (as : List (String × String)) (f : Frame) (rest : List Frame) (sh : String) (ln : Nat)
+    (hpre : pre st "clef" as = some st) (hs : st.stack = f :: rest) (hf : f.tag = "staffDef")
+    (h1 : attr as "sameas" = none) (h2 : attr as "shape" = some sh) (h3 : natAttr as "line" = some ln) :
+    ∃ c, openEv st "clef" as = some (push { st with stack := { f with cClef := c } :: rest } "clef" as) := by
+  simp only [pre] at hpre
+  exact ⟨some ((natAttr f.attrs "n").getD 1, sh, ln, clefOctave as), by simp [openEv, hpre, hs, hf, h1, h2, h3, push, setTop]⟩
+
+theorem openEv_keySig_def (st : Mei.St) (as : List (String × String)) (f : Frame) (rest : List Frame)
+    (hpre : pre st "keySig" as = some st) (hs : st.stack = f :: rest) (hf : f.tag = "staffDef") :
+    ∃ c, openEv st "keySig" as = some (push { st with stack := { f with cKey := c } :: rest } "keySig" as) := by
+  simp only [pre] at hpre
+  exact ⟨keyOfAttrs as "sig" "mode", by simp [openEv, hpre, hs, hf, push, setTop]⟩
+
+theorem openEv_meterSig_def (st st1 : Mei.St) (as : List (String × String)) (f : Frame) (rest : List Frame)
+    (hpre : pre st "meterSig" as = some st1) (hs : st1.stack = f :: rest) (hf : f.tag = "staffDef") :
+    openEv st "meterSig" as =
+      some (push { st1 with stack := { f with cMeter := meterOfAttrs as "count" "unit" } :: rest } "meterSig" as) := by
+  simp only [pre] at hpre
+  simp [openEv, hpre, hs, hf, push, setTop]
+
+theorem closeEv_staffDef (st : Mei.St) (f : Frame) (rest : List Frame) (hs : st.stack = f :: rest) (hf : f.tag = "staffDef")
+    (hin : st.inSection = false) (m : Nat × Nat) (hm : f.cMeter = some m) :
+    ∃ d, closeEv st = some { st with stack := rest, defs := d :: st.defs } ∧ d.meter = some m := by
+  simp only [closeEv, hs]
+  have e1 : ¬ (f.tag = "scoreDef") := by rw [hf]; decide
+  simp only [e1, if_false, hf, hin, Bool.not_false, Bool.and_self, if_true, decide_true]
+  exact ⟨_, rfl, by simp [hm]⟩
+
+theorem closeEv_scoreDef_head (st : Mei.St) (f : Frame) (rest : List Frame) (hs : st.stack = f :: rest) (hf : f.tag = "scoreDef")
+    (hin : st.inSection = false) :
+    closeEv st = some { st with stack := rest, sdMeterChild := f.cMeter, sdKeyChild := f.cKey } := by
+  simp [closeEv, hs, hf, hin]
+
+/-- a child element of a `staffDef` that sets one of its clef / key / meter fields -/
+theorem defChild_spec (st : Mei.St) (rest : List Frame) (tag : String) (as : List (String × String))
+    (f' : Frame) (st1 : Mei.St)
+    (ho : openEv st tag as = some (push { st1 with stack := f' :: rest } tag as))
+    (ht : tag ≠ "scoreDef" ∧ tag ≠ "staffDef" ∧ tag ≠ "layer" ∧ tag ≠ "staff" ∧ tag ≠ "measure" ∧ tag ≠ "chord") :
+    runEvs st (el tag as []) = some { st1 with stack := f' :: rest } := by
+  simp only [el, List.nil_append, List.cons_append, runEvs, stepEv, ho]
+  rw [closeEv_plain (push { st1 with stack := f' :: rest } tag as) { tag := tag, attrs := as } (f' :: rest) rfl
+    ht.1 ht.2.1 ht.2.2.1 ht.2.2.2.1 ht.2.2.2.2.1 ht.2.2.2.2.2]
+  rfl
+
+/-- what survives the header elements: the part definitions grow, nothing else that matters changes -/
+structure HeadKeep (st st' : Mei.St) : Prop where
+  stack : st'.stack = st.stack
+  inSection : st'.inSection = st.inSection
+  notes : st'.notes = st.notes
+  pos : st'.pos = st.pos
+  chord : st'.chord = st.chord
+  sdMeter : st'.sdMeter = st.sdMeter
+
+theorem HeadKeep.refl (st : Mei.St) : HeadKeep st st := ⟨rfl, rfl, rfl, rfl, rfl, rfl⟩
+
+theorem HeadKeep.trans {a b c : Mei.St} (h1 : HeadKeep a b) (h2 : HeadKeep b c) : HeadKeep a c :=
+  ⟨h2.stack.trans h1.stack, h2.inSection.trans h1.inSection, h2.notes.trans h1.notes, h2.pos.trans h1.pos,
+   h2.chord.trans h1.chord, h2.sdMeter.trans h1.sdMeter⟩
+
+theorem staffDef_spec (p : MPart) (s b u : Nat) (hm : p.meter0 = some (b, u))
+    (st : Mei.St) (hin : st.inSection = false) (hnl : inLayer st.stack = false) :
+    ∃ d st', runEvs st (staffDefEvs p s) = some st' ∧ st'.defs = d :: st.defs ∧ d.meter = some (b, u) ∧ HeadKeep st st' := by
+  let A : List (String × String) := [("n", natStr s), ("lines", "5")]
+  have hpA : pre st "staffDef" A = some st :=
+    pre_noDur st "staffDef" A (by simp [A, attr, lookup]) (by simp [A, natAttr, attr, lookup]) (by decide)
+  have hoA := openEv_plain st "staffDef" A hpA hnl (by simp)
+  let f0 : Frame := { tag := "staffDef", attrs := A }
+  let st1 : Mei.St := push st "staffDef" A
+  have ht : ∀ t : String, t ∈ ["clef", "keySig", "meterSig"] →
+      t ≠ "scoreDef" ∧ t ≠ "staffDef" ∧ t ≠ "layer" ∧ t ≠ "staff" ∧ t ≠ "measure" ∧ t ≠ "chord" := by decide
+  have hclef : ∃ (shp lnS : String) (ln : Nat), natOfString lnS = some ln ∧
+      staffDefEvs p s = el "staffDef" A (el "clef" [("shape", shp), ("line", lnS)] [] ++
+        ((match p.key0 with
+          | some k => el "keySig" [("mode", k.mode.getD "major"), ("sig", sigStr k.fifths), ("pname", k.pname)] []
+          | none => []) ++
+        el "meterSig" [("count", natStr b), ("unit", natStr u)] [])) := by
+    cases hcl : (p.clefs0.filter fun c => c.1 = s).getLast? with
+    | none =>
+      refine ⟨"G", "2", 2, by decide, ?_⟩
+      simp only [staffDefEvs, hcl, A, Option.map_none, Option.getD_none, hm]
+      cases p.key0 <;> simp
+    | some c =>
+      refine ⟨c.2.1, natStr c.2.2, c.2.2, natOfString_showNat _, ?_⟩
+      simp only [staffDefEvs, hcl, A, Option.map_some, Option.getD_some, hm]
+      cases p.key0 <;> simp
+  obtain ⟨shp, lnS, ln, hlnS, hevs⟩ := hclef
+  -- the clef
+  obtain ⟨c1, hc1⟩ := openEv_clef_def st1 [("shape", shp), ("line", lnS)] f0 st.stack shp ln
+    (pre_noDur st1 "clef" _ (by simp [attr, lookup]) (by simp [natAttr, attr, lookup]) (by decide)) rfl rfl
+    (by simp [attr, lookup]) (by simp [attr, lookup]) (by simp [natAttr, attr, lookup, hlnS])
+  have r2 := defChild_spec st1 st.stack "clef" _ { f0 with cClef := c1 } st1 hc1 (ht "clef" (by simp))
+  let st2 : Mei.St := { st1 with stack := { f0 with cClef := c1 } :: st.stack }
+  -- the key signature
+  obtain ⟨f2, hf2, r3⟩ : ∃ f2 : Frame, f2.tag = "staffDef" ∧ runEvs st2 (match p.key0 with
+        | some k => el "keySig" [("mode", k.mode.getD "major"), ("sig", sigStr k.fifths), ("pname", k.pname)] []
+        | none => []) = some { st1 with stack := f2 :: st.stack } := by
+    cases p.key0 with
+    | none => exact ⟨{ f0 with cClef := c1 }, rfl, by simp [runEvs, st2]⟩
+    | some k =>
+      obtain ⟨c, hc⟩ := openEv_keySig_def st2 [("mode", k.mode.getD "major"), ("sig", sigStr k.fifths), ("pname", k.pname)]
+        { f0 with cClef := c1 } st.stack
+        (pre_noDur st2 "keySig" _ (by simp [attr, lookup]) (by simp [natAttr, attr, lookup]) (by decide)) rfl rfl
+      exact ⟨{ ({ f0 with cClef := c1 } : Frame) with cKey := c }, rfl,
+        defChild_spec st2 st.stack "keySig" _ _ st2 hc (ht "keySig" (by simp))⟩
+  let st3 : Mei.St := { st1 with stack := f2 :: st.stack }
+  -- the meter
+  have hpM : pre st3 "meterSig" [("count", natStr b), ("unit", natStr u)] = some { st3 with units := u :: st3.units } := by
+    simp [pre, recordDurEl, recordUnits, natAttr, attr, lookup, natStr, natOfString_showNat]
+  have hmo : meterOfAttrs [("count", natStr b), ("unit", natStr u)] "count" "unit" = some (b, u) := by
+    simp [meterOfAttrs, natAttr, attr, lookup, natStr, natOfString_showNat]
+  have r4 := defChild_spec st3 st.stack "meterSig" [("count", natStr b), ("unit", natStr u)]
+    { f2 with cMeter := meterOfAttrs [("count", natStr b), ("unit", natStr u)] "count" "unit" }
+    { st3 with units := u :: st3.units }
+    (openEv_meterSig_def st3 _ _ f2 st.stack hpM rfl hf2) (ht "meterSig" (by simp))
+  rw [hmo] at r4
+  -- the end of the staffDef
+  let st4 : Mei.St := { st1 with units := u :: st.units, stack := { f2 with cMeter := some (b, u) } :: st.stack }
+  obtain ⟨d, hd, hdm⟩ := closeEv_staffDef st4 { f2 with cMeter := some (b, u) } st.stack rfl hf2 hin (b, u) rfl
+  refine ⟨d, { st4 with stack := st.stack, defs := d :: st4.defs }, ?_, rfl, hdm, ⟨rfl, rfl, rfl, rfl, rfl, rfl⟩⟩
+  have hchain : runEvs st1 (el "clef" [("shape", shp), ("line", lnS)] [] ++
+      ((match p.key0 with
+        | some k => el "keySig" [("mode", k.mode.getD "major"), ("sig", sigStr k.fifths), ("pname", k.pname)] []
+        | none => []) ++ el "meterSig" [("count", natStr b), ("unit", natStr u)] [])) = some st4 := by
+    rw [runEvs_append, r2]
+    simp only [Option.bind_some]
+    rw [runEvs_append, r3]
+    simp only [Option.bind_some]
+    rw [r4]
+    rfl
+  have houter : ∀ ch, el "staffDef" A ch = Ev.op "staffDef" A :: (ch ++ [Ev.cl]) := fun ch => rfl
+  rw [hevs, houter]
+  simp only [runEvs, stepEv]
+  rw [hoA]
+  simp only []
+  rw [runEvs_append, hchain]
+  simp only [Option.bind_some, runEvs, stepEv]
+  rw [hd]
+
+theorem staffDefs_spec (p : MPart) (b u : Nat) (hm : p.meter0 = some (b, u)) (ss : List Nat)
+    (st : Mei.St) (hin : st.inSection = false) (hnl : inLayer st.stack = false) :
+    ∃ ds st', runEvs st (ss.flatMap (staffDefEvs p)) = some st' ∧ st'.defs = ds ++ st.defs ∧ ds.length = ss.length ∧
+      (∀ d ∈ ds, ∃ m, d.meter = some m) ∧ HeadKeep st st' := by
+  induction ss generalizing st with
+  | nil => exact ⟨[], st, by simp [runEvs], by simp, rfl, by simp, HeadKeep.refl st⟩
+  | cons s rest ih =>
+    obtain ⟨d, st1, r1, d1, m1, k1⟩ := staffDef_spec p s b u hm st hin hnl
+    obtain ⟨ds, st2, r2, d2, l2, m2, k2⟩ := ih st1 (by rw [k1.inSection]; exact hin) (by rw [k1.stack]; exact hnl)
+    refine ⟨ds ++ [d], st2, ?_, by rw [d2, d1]; simp, by simp [l2], ?_, k1.trans k2⟩
+    · simp only [List.flatMap_cons]
+      rw [runEvs_append, r1]
+      exact r2
+    · intro x hx
+      rcases List.mem_append.mp hx with h | h
+      · exact m2 x h
+      · simp at h; subst h; exact ⟨_, m1⟩
+
+/-- an element that only structures the header: after its children it is closed and forgotten -/
+theorem plain_el (st : Mei.St) (tag : String) (as : List (String × String)) (children : List Ev) (st2 : Mei.St)
+    (htag : tag ∈ ["mei", "meiHead", "fileDesc", "titleStmt", "title", "music", "body", "mdiv", "score", "staffGrp"])
+    (h1 : attr as "dur" = none) (h2 : natAttr as "meter.unit" = none) (hnl : inLayer st.stack = false)
+    (hrun : runEvs (push st tag as) children = some st2) (hstack : st2.stack = { tag := tag, attrs := as } :: st.stack) :
+    runEvs st (el tag as children) = some { st2 with stack := st.stack } := by
+  have hne : tag ≠ "meterSig" ∧ tag ≠ "scoreDef" ∧ tag ≠ "staffDef" ∧ tag ≠ "layer" ∧ tag ≠ "staff" ∧ tag ≠ "measure" ∧ tag ≠ "chord" := by
+    simp only [List.mem_cons, List.not_mem_nil, or_false] at htag
+    rcases htag with rfl | rfl | rfl | rfl | rfl | rfl | rfl | rfl | rfl | rfl <;> decide
+  have hp : pre st tag as = some st := pre_noDur st tag as h1 h2 hne.1
+  have ho := openEv_plain st tag as hp hnl (by
+    simp only [List.mem_cons, List.not_mem_nil, or_false] at htag ⊢
+    rcases htag with h | h | h | h | h | h | h | h | h | h <;> simp [h])
+  simp only [el, List.cons_append, runEvs, stepEv, ho]
+  rw [runEvs_append, hrun]
+  simp only [Option.bind_some, runEvs, stepEv]
+  rw [closeEv_plain st2 { tag := tag, attrs := as } st.stack hstack hne.2.1 hne.2.2.1 hne.2.2.2.1 hne.2.2.2.2.1
+    hne.2.2.2.2.2.1 hne.2.2.2.2.2.2]
+
+theorem inLayer_push_false (st : Mei.St) (tag : String) (as : List (String × String)) (h : inLayer st.stack = false)
+    (ht : tag ≠ "layer") : inLayer (push st tag as).stack = false := by
+  simp only [inLayer, push, List.any_cons] at h ⊢
+  simp [h, ht]
+
+/-! ## the whole document -/
+
+/-- the `score` element: part definitions, then the section with the measures -/
+theorem score_spec (p : MPart) (b u : Nat) (hm : p.meter0 = some (b, u)) (hns : 0 < p.nstaves)
+    (hchain : measuresChain 0 p.measures = true) (hok : ∀ m ∈ p.measures, measureOk p.divs p.nstaves m = true)
+    (ks : List String) (body : List Ev) (hbody : measuresEvs p.nstaves ks p.measures = some body)
+    (st : Mei.St) (hin : st.inSection = false) (hnl : inLayer st.stack = false) (hnt : tupletsOf st.stack = [])
+    (hch : st.chord = none) (hdefs : st.defs = []) (hpos : st.pos = 0) (hnotes : st.notes = []) :
+    ∃ st' new, runEvs st (el "scoreDef" [] (el "staffGrp" [("bar.thru", "true")] ((stavesOf p.nstaves).flatMap (staffDefEvs p))) ++
+        el "section" [] body) = some st' ∧ st'.stack = st.stack ∧ st'.notes = new ∧ st'.defs.length = p.nstaves ∧
+      AllMeters st' ∧ (∀ r ∈ new, r.part < p.nstaves) ∧
+      ∀ m ∈ p.measures, ∀ x ∈ m.notes, x.n.kind ≠ 2 → ∃ r ∈ new, rfact r = factOf p.divs x := by
+  -- the scoreDef
+  have hp5 : pre st "scoreDef" [] = some st := pre_noDur st "scoreDef" [] rfl rfl (by decide)
+  have ho5 := openEv_scoreDef_head st [] hp5 hin
+  let s5 : Mei.St := push { st with sdMeter := meterOfAttrs [] "meter.count" "meter.unit", sdKey := keyOfAttrs [] "key.sig" "key.mode" } "scoreDef" []
+  have hnl5 : inLayer s5.stack = false := inLayer_push_false _ _ _ hnl (by decide)
+  let sG : Mei.St := push s5 "staffGrp" [("bar.thru", "true")]
+  have hnlG : inLayer sG.stack = false := inLayer_push_false _ _ _ hnl5 (by decide)
+  obtain ⟨ds, sD, rD, dD, lD, mD, kD⟩ := staffDefs_spec p b u hm (stavesOf p.nstaves) sG hin hnlG
+  have rG := plain_el s5 "staffGrp" [("bar.thru", "true")] _ sD (by simp) (by simp [attr, lookup]) (by simp [natAttr, attr, lookup])
+    hnl5 rD kD.stack
+  let sG' : Mei.St := { sD with stack := s5.stack }
+  have hc5 := closeEv_scoreDef_head sG' { tag := "scoreDef", attrs := [] } st.stack rfl rfl (by show sD.inSection = false; rw [kD.inSection]; exact hin)
+  let s6 : Mei.St := { sG' with stack := st.stack, sdMeterChild := none, sdKeyChild := none }
+  -- the section
+  have hp7 : pre s6 "section" [] = some s6 := pre_noDur s6 "section" [] rfl rfl (by decide)
+  have ho7 := openEv_section s6 [] hp7
+  let s7 : Mei.St := push { s6 with inSection := true } "section" []
+  have hdefs6 : s6.defs = ds := by show sD.defs = ds; rw [dD]; show ds ++ st.defs = ds; rw [hdefs]; simp
+  have hc7 : SecCtx s7 p.nstaves := by
+    refine ⟨inLayer_push_false _ _ _ hnl (by decide), ?_, ?_, ?_, ?_, rfl⟩
+    · show tupletsOf ({ tag := "section", attrs := [] } :: st.stack) = []
+      rw [tupletsOf_push_other _ _ (by decide)]; exact hnt
+    · show sD.chord = none; rw [kD.chord]; exact hch
+    · show s6.defs.length = p.nstaves; rw [hdefs6, lD]; simp [stavesOf]
+    · intro d hd
+      have : d ∈ ds := by rw [← hdefs6]; exact hd
+      exact mD d this
+  have hpos7 : s7.pos = ((0 : Nat) : Rat) / (p.divs : Rat) := by
+    show sD.pos = _; rw [kD.pos]; show st.pos = _; rw [hpos]; simp
+  obtain ⟨s8, new, r8, n8, k8, c8, b8, f8⟩ := measures_spec p.divs p.nstaves hns p.measures ks 0 hchain hok body hbody s7 hc7 hpos7
+  have hcl := closeEv_plain s8 { tag := "section", attrs := [] } st.stack (by rw [k8.stack]; rfl) (by decide) (by decide) (by decide)
+    (by decide) (by decide) (by decide)
+  refine ⟨{ s8 with stack := st.stack }, new, ?_, rfl, ?_, ?_, ?_, b8, f8⟩
+  · rw [runEvs_append]
+    have h1 : runEvs st (el "scoreDef" [] (el "staffGrp" [("bar.thru", "true")] ((stavesOf p.nstaves).flatMap (staffDefEvs p)))) = some s6 := by
+      have houter : ∀ ch, el "scoreDef" [] ch = Ev.op "scoreDef" [] :: (ch ++ [Ev.cl]) := fun ch => rfl
+      rw [houter]
+      simp only [runEvs, stepEv]
+      rw [ho5]
+      simp only []
+      rw [runEvs_append, rG]
+      simp only [Option.bind_some, runEvs, stepEv]
+      rw [hc5]
+    rw [h1]
+    simp only [Option.bind_some]
+    have houter : ∀ ch, el "section" [] ch = Ev.op "section" [] :: (ch ++ [Ev.cl]) := fun ch => rfl
+    rw [houter]
+    simp only [runEvs, stepEv]
+    rw [ho7]
+    simp only []
+    rw [runEvs_append, r8]
+    simp only [Option.bind_some, runEvs, stepEv]
+    rw [hcl]
+  · show s8.notes = new
+    rw [n8]
+    show new ++ sD.notes = new
+    rw [kD.notes]
+    show new ++ st.notes = new
+    rw [hnotes]; simp
+  · show s8.defs.length = p.nstaves
+    rw [k8.defs]
+    exact hc7.defs
+  · intro d hd
+    have : d ∈ s7.defs := by rw [← k8.defs]; exact hd
+    exact hc7.meters d this
+
+/-! ## an exportable part is written -/
+
+theorem mapMOpt_of_forall {α β : Type} (f : α → Option β) (l : List α) (h : ∀ a ∈ l, ∃ b, f a = some b) :
+    ∃ r, mapMOpt f l = some r := by
+  induction l with
+  | nil => exact ⟨[], rfl⟩
+  | cons a rest ih =>
+    obtain ⟨b, hb⟩ := h a (by simp)
+    obtain ⟨bs, hbs⟩ := ih (fun x hx => h x (by simp [hx]))
+    exact ⟨b :: bs, by simp [mapMOpt, hb, hbs]⟩
+
+theorem noteEl_some (divs : Nat) (tup : Option (Nat × Nat)) (ks : List String) (m : MNote) (h : noteOkM divs tup m = true) :
+    ∃ r, noteEl ks m = some r := by
+  obtain ⟨_, sd, q0, hsym, hq0, _, hpitch⟩ := noteOkM_unpack divs tup m h
+  cases hd : meiDurOf sd.type with
+  | none => simp [symQuarters, hd] at hq0
+  | some d =>
+    simp only [noteEl, hsym, hd]
+    by_cases k2 : m.n.kind = 2
+    · simp [k2]
+    · simp only [k2, if_false]
+      obtain ⟨_, _, halt⟩ := hpitch k2
+      cases hal : m.n.alter with
+      | none => simp
+      | some a =>
+        obtain ⟨acc, hacc⟩ := halt a hal
+        simp only [hacc]
+        split <;> simp
+
+theorem leafEvs_some (divs : Nat) (tup : Option (Nat × Nat)) (ks : List String) (l : Leaf) (cur cur' : Nat)
+    (h : leafOk divs tup cur l = some cur') : ∃ e, leafEvs ks l = some e := by
+  cases l with
+  | single m =>
+    simp only [leafOk] at h
+    split at h
+    · rename_i hc
+      simp only [Bool.and_eq_true] at hc
+      obtain ⟨r, hr⟩ := noteEl_some divs tup ks m hc.1
+      exact ⟨r.1, by simp [leafEvs, hr]⟩
+    · simp at h
+  | chord ms =>
+    simp only [leafOk] at h
+    cases hl : ms.getLast? with
+    | none => simp [hl] at h
+    | some last =>
+      simp only [hl] at h
+      split at h
+      · rename_i hall
+        obtain ⟨els, hels⟩ := mapMOpt_of_forall (noteEl ks) ms (by
+          intro m hm
+          have := List.all_eq_true.mp hall m hm
+          simp only [Bool.and_eq_true] at this
+          exact noteEl_some divs tup ks m this.1.1.1)
+        exact Option.isSome_iff_exists.mp (by simp [leafEvs, hels, hl])
+      · simp at h
+
+theorem leaves_some (divs : Nat) (tup : Option (Nat × Nat)) (ks : List String) (ls : List Leaf) (cur cur' : Nat)
+    (h : leavesOk divs tup cur ls = some cur') : ∃ es, mapMOpt (leafEvs ks) ls = some es := by
+  induction ls generalizing cur with
+  | nil => exact ⟨[], rfl⟩
+  | cons l rest ih =>
+    simp only [leavesOk] at h
+    cases h1 : leafOk divs tup cur l with
+    | none => simp [h1] at h
+    | some c1 =>
+      simp only [h1] at h
+      obtain ⟨e, he⟩ := leafEvs_some divs tup ks l cur c1 h1
+      obtain ⟨es, hes⟩ := ih c1 h
+      exact ⟨e :: es, by simp [mapMOpt, he, hes]⟩
+
+theorem items_some (divs : Nat) (ks : List String) (items : List Item) (cur cur' : Nat)
+    (h : itemsOk divs cur items = some cur') : ∃ es, mapMOpt (itemEvs ks) items = some es := by
+  induction items generalizing cur with
+  | nil => exact ⟨[], rfl⟩
+  | cons it rest ih =>
+    cases it with
+    | leaf l =>
+      simp only [itemsOk] at h
+      cases h1 : leafOk divs none cur l with
+      | none => simp [h1] at h
+      | some c1 =>
+        simp only [h1] at h
+        obtain ⟨e, he⟩ := leafEvs_some divs none ks l cur c1 h1
+        obtain ⟨es, hes⟩ := ih c1 h
+        exact ⟨e :: es, by simp [mapMOpt, itemEvs, he, hes]⟩
+    | tuplet num numbase inner =>
+      simp only [itemsOk] at h
+      split at h
+      · simp at h
+      · cases h1 : leavesOk divs (some (num, numbase)) cur inner with
+        | none => simp [h1] at h
+        | some c1 =>
+          simp only [h1] at h
+          obtain ⟨ies, hies⟩ := leaves_some divs _ ks inner cur c1 h1
+          obtain ⟨es, hes⟩ := ih c1 h
+          exact Option.isSome_iff_exists.mp (by simp [mapMOpt, itemEvs, hies, hes])
+
+theorem measureEvs_some (divs nstaves : Nat) (ks : List String) (m : MMeasure) (h : measureOk divs nstaves m = true) :
+    ∃ e, measureEvs ks nstaves m = some e := by
+  simp only [measureOk] at h
+  cases hfin : finalLayers nstaves m with
+  | none => simp [hfin] at h
+  | some layers =>
+    simp only [hfin] at h
+    cases hends : mapMOpt (fun l => itemsOk divs m.start l.2.2) layers with
+    | none => simp [hends] at h
+    | some ends =>
+      have hlayer : ∀ l ∈ layers, ∃ e, layerEvs ks l = some e := by
+        intro l hl
+        obtain ⟨e, _, he⟩ := (mapMOpt_mem _ _ _ hends).1 l hl
+        obtain ⟨es, hes⟩ := items_some divs ks l.2.2 m.start e he
+        exact Option.isSome_iff_exists.mp (by simp [layerEvs, hes])
+      have hstaff : ∀ s ∈ (List.range nstaves).map (· + 1), ∃ e, staffEvs ks layers s = some e := by
+        intro s _
+        obtain ⟨es, hes⟩ := mapMOpt_of_forall (layerEvs ks) (layers.filter fun l => l.1 = s)
+          (fun l hl => hlayer l (List.mem_filter.mp hl).1)
+        exact Option.isSome_iff_exists.mp (by simp [staffEvs, hes])
+      obtain ⟨es, hes⟩ := mapMOpt_of_forall _ _ hstaff
+      exact Option.isSome_iff_exists.mp (by simp [measureEvs, hfin, hes])
+
+theorem measuresEvs_some (divs nstaves : Nat) (ms : List MMeasure) (ks : List String)
+    (h : ∀ m ∈ ms, measureOk divs nstaves m = true) : ∃ e, measuresEvs nstaves ks ms = some e := by
+  induction ms generalizing ks with
+  | nil => exact ⟨[], rfl⟩
+  | cons m rest ih =>
+    obtain ⟨me, hme⟩ := measureEvs_some divs nstaves ks m (h m (by simp))
+    obtain ⟨more, hmore⟩ := ih ((m.keys.filter fun k => k.t ≠ 0).foldl (fun cur k => keyList cur k.fifths) ks)
+      (fun x hx => h x (by simp [hx]))
+    apply Option.isSome_iff_exists.mp
+    simp only [measuresEvs, hme]
+    simp only [ne_eq, decide_not] at hmore
+    simp [hmore]
+
+theorem mapM_some_of_forall {α β : Type} (f : α → Option β) (l : List α) (h : ∀ a ∈ l, ∃ b, f a = some b) :
+    ∃ bs, l.mapM f = some bs ∧ ∀ a ∈ l, ∃ b ∈ bs, f a = some b := by
+  induction l with
+  | nil => exact ⟨[], rfl, by simp⟩
+  | cons a rest ih =>
+    obtain ⟨b, hb⟩ := h a (by simp)
+    obtain ⟨bs, hbs, hm⟩ := ih (fun x hx => h x (by simp [hx]))
+    refine ⟨b :: bs, by simp [List.mapM_cons, hb, hbs], ?_⟩
+    intro x hx
+    rcases List.mem_cons.mp hx with rfl | hx
+    · exact ⟨b, by simp, hb⟩
+    · obtain ⟨y, hy, hf⟩ := hm x hx
+      exact ⟨y, by simp [hy], hf⟩
+
+/-- the part of a definition holds every note that was read into it -/
+theorem mkPart_mem (st : Mei.St) (i : Nat) (d : PartDef) (m : Nat × Nat) (hm : d.meter = some m) :
+    ∃ P, mkPart st i d = some P ∧ ∀ r ∈ st.notes, r.part = i → ∃ x ∈ P.notes, factOfMeiNote x = rfact r := by
+  have hres : resolveMeter st d = some m := by simp [resolveMeter, hm]
+  obtain ⟨mb, mu⟩ := m
+  simp only [mkPart, hres]
+  refine ⟨_, rfl, ?_⟩
+  intro r hr hp
+  simp only [List.mem_mergeSort, List.mem_map, List.mem_filter, List.mem_reverse]
+  exact ⟨_, ⟨r, ⟨hr, by simp [hp]⟩, rfl⟩, by simp [factOfMeiNote, rfact]⟩
+
+theorem tupletsOf_nil : tupletsOf [] = [] := rfl
+
+theorem plain_el_same (st : Mei.St) (tag : String) (as : List (String × String)) (children : List Ev)
+    (htag : tag ∈ ["mei", "meiHead", "fileDesc", "titleStmt", "title", "music", "body", "mdiv", "score", "staffGrp"])
+    (h1 : attr as "dur" = none) (h2 : natAttr as "meter.unit" = none) (hnl : inLayer st.stack = false)
+    (hrun : runEvs (push st tag as) children = some (push st tag as)) :
+    runEvs st (el tag as children) = some st := by
+  rw [plain_el st tag as children (push st tag as) htag h1 h2 hnl hrun rfl]
+  cases st
+  rfl
+
+/-- `export_import` (MEI), the state machine part: the written document runs through, and every note of the part is read -/
+theorem doc_spec (p : MPart) (hexp : Exportable p = true) :
+    ∃ evs stF, writeMei p = some evs ∧ runEvs {} evs = some stF ∧ stF.defs.length = p.nstaves ∧ AllMeters stF ∧
+      (∀ r ∈ stF.notes, r.part < p.nstaves) ∧
+      ∀ m ∈ p.measures, ∀ x ∈ m.notes, x.n.kind ≠ 2 → ∃ r ∈ stF.notes, rfact r = factOf p.divs x := by
+  simp only [Exportable, Bool.and_eq_true, decide_eq_true_eq, List.all_eq_true] at hexp
+  obtain ⟨⟨⟨⟨hdivs, hns⟩, hm0⟩, hchain⟩, hok⟩ := hexp
+  obtain ⟨⟨b, u⟩, hm⟩ := Option.isSome_iff_exists.mp hm0
+  -- the body exists: every measure is written
+  obtain ⟨body, hbody⟩ := measuresEvs_some p.divs p.nstaves p.measures (initKeys p) (fun m hm => hok m hm)
+  let H : List Ev := el "meiHead" [] (el "fileDesc" [] (el "titleStmt" [] (el "title" [] [])))
+  let SC : List Ev := el "scoreDef" [] (el "staffGrp" [("bar.thru", "true")] ((stavesOf p.nstaves).flatMap (staffDefEvs p))) ++
+    el "section" [] body
+  have hw : writeMei p = some (el "mei" [("meiversion", "4.0.1")]
+      (H ++ el "music" [] (el "body" [] (el "mdiv" [] (el "score" [] SC))))) := by
+    simp only [writeMei, hbody, Option.map_some]
+    rfl
+  have hA : ∀ k, attr ([] : List (String × String)) k = none := fun _ => rfl
+  have hN : ∀ k, natAttr ([] : List (String × String)) k = none := fun _ => rfl
+  -- the states on the way in
+  let s1 : Mei.St := push {} "mei" [("meiversion", "4.0.1")]
+  have n1 : inLayer s1.stack = false := by decide
+  -- the header of the file
+  have rH : runEvs s1 H = some s1 := by
+    have n2 : inLayer (push s1 "meiHead" []).stack = false := by decide
+    have n3 : inLayer (push (push s1 "meiHead" []) "fileDesc" []).stack = false := by decide
+    have n4 : inLayer (push (push (push s1 "meiHead" []) "fileDesc" []) "titleStmt" []).stack = false := by decide
+    have r4 := plain_el_same (push (push (push s1 "meiHead" []) "fileDesc" []) "titleStmt" []) "title" [] [] (by simp) (hA _) (hN _) n4 rfl
+    have r3 := plain_el_same (push (push s1 "meiHead" []) "fileDesc" []) "titleStmt" [] _ (by simp) (hA _) (hN _) n3 r4
+    have r2 := plain_el_same (push s1 "meiHead" []) "fileDesc" [] _ (by simp) (hA _) (hN _) n2 r3
+    exact plain_el_same s1 "meiHead" [] _ (by simp) (hA _) (hN _) n1 r2
+  let s2 : Mei.St := push s1 "music" []
+  let s3 : Mei.St := push s2 "body" []
+  let s4 : Mei.St := push s3 "mdiv" []
+  let s5 : Mei.St := push s4 "score" []
+  have n2 : inLayer s2.stack = false := by decide
+  have n3 : inLayer s3.stack = false := by decide
+  have n4 : inLayer s4.stack = false := by decide
+  have n5 : inLayer s5.stack = false := by decide
+  obtain ⟨s6, new, r6, k6, e6, d6, m6, b6, f6⟩ := score_spec p b u hm hns hchain hok _ body hbody s5 rfl n5 (by decide) rfl rfl rfl rfl
+  have r5 := plain_el s4 "score" [] SC s6 (by simp) (hA _) (hN _) n4 r6 k6
+  have r4 := plain_el s3 "mdiv" [] (el "score" [] SC) { s6 with stack := s4.stack } (by simp) (hA _) (hN _) n3 r5 rfl
+  have r3 := plain_el s2 "body" [] (el "mdiv" [] (el "score" [] SC)) { ({ s6 with stack := s4.stack } : Mei.St) with stack := s3.stack }
+    (by simp) (hA _) (hN _) n2 r4 rfl
+  have r2 := plain_el s1 "music" [] (el "body" [] (el "mdiv" [] (el "score" [] SC)))
+    { ({ ({ s6 with stack := s4.stack } : Mei.St) with stack := s3.stack } : Mei.St) with stack := s2.stack }
+    (by simp) (hA _) (hN _) n1 r3 rfl
+  have rall : runEvs s1 (H ++ el "music" [] (el "body" [] (el "mdiv" [] (el "score" [] SC)))) = some
+      { ({ ({ ({ s6 with stack := s4.stack } : Mei.St) with stack := s3.stack } : Mei.St) with stack := s2.stack } : Mei.St) with stack := s1.stack } := by
+    rw [runEvs_append, rH]
+    exact r2
+  have r1 := plain_el {} "mei" [("meiversion", "4.0.1")] _ _ (by simp) (by simp [attr, lookup]) (by simp [natAttr, attr, lookup])
+    (by decide) rall rfl
+  refine ⟨_, _, hw, r1, d6, m6, ?_, ?_⟩
+  · intro r hr
+    exact b6 r (by rw [← e6]; exact hr)
+  · intro m hm' x hx hk
+    obtain ⟨r, hr, hf⟩ := f6 m hm' x hx hk
+    exact ⟨r, by show r ∈ s6.notes; rw [e6]; exact hr, hf⟩
+
+/-- **export_import (MEI).**  The document written for an exportable part denotes, among the notes of its
+    parts, every note and grace note of the part with its onset and duration in quarters, spelling and staff. -/
+theorem export_import_mei_aux (p : MPart) (h : Exportable p = true) :
+    ∃ evs parts, writeMei p = some evs ∧ Mei.denote evs = some parts ∧
+      ∀ f ∈ facts p, ∃ part ∈ parts, ∃ x ∈ part.notes, factOfMeiNote x = f := by
+  obtain ⟨evs, stF, hw, hrun, hlen, hall, hpart, hfacts⟩ := doc_spec p h
+  -- every definition yields a part
+  obtain ⟨parts, hparts, hmem⟩ := mapM_some_of_forall (fun (di : PartDef × Nat) => mkPart stF di.2 di.1) (partsInOrder stF).zipIdx (by
+    intro di hdi
+    have hd : di.1 ∈ stF.defs := by
+      have := List.mem_zipIdx_iff_getElem?.mp hdi
+      have := List.mem_of_getElem? this
+      simpa [partsInOrder] using this
+    obtain ⟨m, hm⟩ := hall di.1 hd
+    obtain ⟨P, hP, _⟩ := mkPart_mem stF di.2 di.1 m hm
+    exact ⟨P, hP⟩)
+  refine ⟨evs, parts, hw, ?_, ?_⟩
+  · simp only [Mei.denote, hrun]
+    exact hparts
+  · intro f hf
+    simp only [facts, List.mem_flatten, List.mem_map] at hf
+    obtain ⟨l, ⟨m, hm, rfl⟩, hfl⟩ := hf
+    simp only [List.mem_map, List.mem_filter] at hfl
+    obtain ⟨x, ⟨hx, hk⟩, rfl⟩ := hfl
+    obtain ⟨r, hr, hrf⟩ := hfacts m hm x hx (by simpa using hk)
+    have hi : r.part < (partsInOrder stF).length := by simpa [partsInOrder, hlen] using hpart r hr
+    have hdi : ((partsInOrder stF)[r.part], r.part) ∈ (partsInOrder stF).zipIdx :=
+      List.mem_zipIdx_iff_getElem?.mpr (by simp [List.getElem?_eq_getElem hi])
+    obtain ⟨P, hP, hfP⟩ := hmem _ hdi
+    have hd : (partsInOrder stF)[r.part] ∈ stF.defs := by
+      have := List.getElem_mem hi
+      simpa [partsInOrder] using this
+    obtain ⟨mm, hmm⟩ := hall _ hd
+    obtain ⟨P', hP', hnotes⟩ := mkPart_mem stF r.part (partsInOrder stF)[r.part] mm hmm
+    simp only at hfP
+    rw [hP'] at hfP
+    simp only [Option.some.injEq] at hfP
+    subst hfP
+    obtain ⟨y, hy, hyf⟩ := hnotes r hr rfl
+    exact ⟨P', hP, y, hy, by rw [hyf, hrf]⟩
+
 end C19M
